@@ -5,8 +5,8 @@ from vlib.core import Case
 
 ID = "C15"
 LEAN_MODULE = "Ctrmml.Properties.C15"
-THEOREMS = ["C15_wav_reader_total", "C15_validator_never_out_of_range", "C15_validate_routed", "C15_pipeline_total_partial",
-            "C15_pipeline_terminates", "C15_modelled_components_never_foreign"]
+THEOREMS = ["C15_parse_routed", "C15_reader_never_foreign", "C15_wav_reader_total", "C15_validator_never_out_of_range",
+            "C15_validate_routed", "C15_pipeline_total_partial", "C15_pipeline_terminates", "C15_modelled_components_never_foreign"]
 LEVEL = "other"
 STREAM = "total"
 HARNESS_VARIANT = "align"      # the C15 harness keeps UBSan's alignment check (D22)
@@ -463,7 +463,7 @@ def song_cases(rng, tier):
         # without the sample directory: missing files
         yield Case("total m %s" % hx(s), ("song", "shipped-without-pcm"), "song")
         yield Case("total v %s" % hx(s), ("song", "shipped-without-pcm"), "song")
-    n = 200 if tier == "quick" else 2600
+    n = 200 if tier == "quick" else 9000
     bodies = [s for _, s in songs]
     for i in range(n):
         s = rng.choice(bodies)
@@ -540,7 +540,7 @@ def rnd_structured(rng):
 
 def random_cases(rng, tier):
     okw = wav_ok().hex()
-    n = 600 if tier == "quick" else 8000
+    n = 600 if tier == "quick" else 30000
     for i in range(n):
         r = rng.random()
         if r < 0.35:
